@@ -514,10 +514,12 @@ def main():
             print("INSITU", r["label"], which, verdict, name, m)
         print("c13 skipped", c13_skipped, "placement disagreements", len(placement), "known", known_place)
 
-    for r in results[:3]:
+    picked = results[:2] + [r for r in results if "[then " in r["label"] and r.get("fates")][:2] + [r for r in results if " in front]" in r["label"] and r.get("fates")][:1]
+    for r in picked:
         if r.get("src"):
             ck.sample({"network": r["label"], "opts": r["opts"], "status": r["status"],
-                       "source_ops": [s["type"] for s in r["src"]], "cpu_ops_in_output": len(r.get("cpu_ops", []))})
+                       "source_ops": [s["type"] for s in r["src"]], "documented": [r.get("verdicts", {}).get(k, ("-",))[0][:60] for k in range(len(r["src"]))],
+                       "fates_in_output_file": r.get("fates"), "cpu_ops_in_output": len(r.get("cpu_ops", []))})
     sup_never = sorted(n for n in rc.docs["sup"] if ck.counters.get("failed_" + n, 0) == 0)
     sem_never = sorted(n for n in rc.docs["sem"] if ck.counters.get("failed_" + n, 0) == 0)
     ck.finish({
